@@ -65,12 +65,22 @@ fn incremental(c: &mut Ctx) {
         let req = format!("save_incr {} {} {} {} {} {} {}", kind, nd.max_id, hex_tok(nd.version.as_bytes()), hex_tok(&nd.binary_mark), hex_tok(&base),
             show_obj(&Object::Dictionary(nd.trailer.clone())), show_objects(nd.objects.iter()));
         let mut out = Vec::new();
+        let inc_before = inc.clone();
         match guard(|| inc.save_to(&mut out)) {
             Ok(Ok(())) => {
                 c.corr(req.clone(), format!("ok {} {} {}", hex_tok(&out), inc.new_document.max_id, show_obj(&Object::Dictionary(inc.new_document.trailer.clone()))));
                 c.nontrivial(&req);
                 c.count(if stream { "incr.xref_stream" } else { "incr.xref_table" });
                 strict_twin(c, &out);
+                if i % 3 == 0 {
+                    let mut odd = OddSink::new(&mut r); let mut i2 = inc_before.clone();
+                    match guard(|| i2.save_to(&mut odd)) {
+                        Ok(Ok(())) => if odd.data != out { c.oracle_fail("sink-dependent-bytes", &format!("incremental save through a sink with {} gives other bytes than into a Vec", odd.describe()), json!({"file": hex(&out), "odd": hex(&odd.data), "kind": kind})); },
+                        Ok(Err(e)) => c.oracle_fail("sink-dependent-bytes", &format!("incremental save through a sink with {} fails: {:?}", odd.describe(), e), json!({"kind": kind})),
+                        Err((site, msg)) => c.oracle_fail(&format!("panic@{}", site), &msg, json!({"kind": kind})),
+                    }
+                    c.count("incr.odd_sink_saves");
+                }
                 match guard(|| strict_load(&out)) {
                     Ok(Ok(sd)) => {
                         if sd.revisions != 2 { c.oracle_fail("strict:revisions", &format!("strict reader sees {} revisions, expected 2", sd.revisions), json!({"file": hex(&out)})); }
@@ -109,6 +119,16 @@ Non-trivial = document with >= 2 objects; distinct by request text.".into();
                 c.corr(req, format!("ok {} {} {}", hex_tok(&buf), doc.max_id, show_obj(&Object::Dictionary(doc.trailer.clone()))));
                 c.count(if stream { "doc.xref_stream" } else { "doc.xref_table" });
                 check_strict(c, &before, &buf, kind, "doc");
+                // the same document through a sink with short writes / Interrupted: the file must be the same
+                if i % 3 == 0 {
+                    let mut odd = OddSink::new(&mut r); let mut d2 = before.clone();
+                    match guard(|| d2.save_to(&mut odd)) {
+                        Ok(Ok(())) => if odd.data != buf { c.oracle_fail("sink-dependent-bytes", &format!("saving through a sink with {} gives other bytes than saving into a Vec", odd.describe()), json!({"file": hex(&buf), "odd": hex(&odd.data), "kind": kind})); },
+                        Ok(Err(e)) => c.oracle_fail("sink-dependent-bytes", &format!("save through a sink with {} fails: {:?}", odd.describe(), e), json!({"kind": kind})),
+                        Err((site, msg)) => c.oracle_fail(&format!("panic@{}", site), &msg, json!({"kind": kind})),
+                    }
+                    c.count("doc.odd_sink_saves");
+                }
                 // self-test of the oracle: a structural mutation of the file must not pass unnoticed
                 if i % 4 == 0 && buf.len() > 40 {
                     let mut m = buf.clone();
